@@ -26,6 +26,11 @@ def regen(chk: core.Check) -> bool:
         chk.obligation_broken("translator", "translate _change_pivot / caller wiring of helix.py into Gen/HelixPy.lean", g["error"])
         return False
     chk.coverage["helix_translation"] = g["info"]
+    g2 = gen.gen_helixprops()
+    if not g2["ok"]:
+        chk.obligation_broken("translator", "translate the helix kernels / properties / constructors of helix.py into Gen/HelixProps.lean", g2["error"])
+        return False
+    chk.coverage["helix_props_translation"] = {k: (v if not isinstance(v, (dict, list)) or len(str(v)) < 300 else str(v)[:300]) for k, v in g2["info"].items()} if isinstance(g2["info"], dict) else str(g2["info"])[:300]
     return True
 
 
